@@ -29,6 +29,7 @@ type c17Obj struct {
 	CondB  string `json:"condB"`  // absent | True
 	Fields string `json:"fields"` // equal | different | missingB
 	X      int64  `json:"x"`      // spec.x for the CEL rule self.spec.x > 0
+	Gen    string `json:"gen"`    // int (metadata.generation = 2) | absent | string ("2"): an unreadable generation counts as 0
 }
 
 func c17Concrete(es []c17Entry) []corev1alpha1.ObjectSetProbe {
@@ -71,7 +72,13 @@ func c17Concrete(es []c17Entry) []corev1alpha1.ObjectSetProbe {
 func c17Object(o c17Obj) *unstructured.Unstructured {
 	u := Obj(gvkWidget, NS, "probed")
 	u.SetLabels(map[string]string{"app": "x"})
-	u.SetGeneration(2)
+	switch o.Gen {
+	case "absent":
+	case "string":
+		u.Object["metadata"].(map[string]any)["generation"] = "2"
+	default:
+		u.SetGeneration(2)
+	}
 	u.Object["spec"] = map[string]any{"a": int64(1), "x": o.X}
 	st := map[string]any{}
 	switch o.OG {
@@ -135,7 +142,10 @@ func c17Objects() []c17Obj {
 				for _, b := range []string{"absent", "True"} {
 					for _, f := range []string{"equal", "different", "missingB"} {
 						for _, x := range []int64{1, 0} {
-							out = append(out, c17Obj{og, sh, a, b, f, x})
+							out = append(out, c17Obj{og, sh, a, b, f, x, "int"})
+							if f == "equal" && b == "absent" {
+								out = append(out, c17Obj{og, sh, a, b, f, x, "absent"}, c17Obj{og, sh, a, b, f, x, "string"})
+							}
 						}
 					}
 				}
